@@ -75,7 +75,10 @@ func (g *Gen) call(fr *Frame, st *State, c *ssa.CallCommon, res ssa.Value) Val {
 		recv := g.val(fr, st, c.Value)
 		key := ifaceKey(c)
 		if key == "error.Error" {
-			return g.freshOfType(st, "errstr", resT)
+			// the text of an error value: a function of the value (error values are immutable - assumed, noted)
+			g.needErrtext()
+			g.note("the text of an error value does not change (error.Error() is a function of the value)")
+			return Val{T: sx("errtext", recv.T)}
 		}
 		g.callAnchorsInvoke(fr, st, c, args)
 		var ret Val
@@ -132,7 +135,7 @@ func (g *Gen) call(fr *Frame, st *State, c *ssa.CallCommon, res ssa.Value) Val {
 	var ret Val
 	if con != nil && !con.Inline && !(callee.Parent() != nil && len(con.Ensures) == 0 && len(con.Requires) == 0 && !con.HasModifies) {
 		ret = g.applyContract(fr, st, con, callee.Signature, args, false, resT, pkgOf(callee), key)
-	} else if callee.Parent() != nil || (con != nil && con.Inline) || g.P.autoInline(callee) {
+	} else if callee.Parent() != nil || (con != nil && con.Inline) || g.autoInline(fr, callee, c) {
 		ret = g.inline(fr, st, callee, args, bindings, resT)
 	} else {
 		ret = g.uncontracted(fr, st, c, args, resT, key)
@@ -189,8 +192,94 @@ func (g *Gen) inline(fr *Frame, st *State, callee *ssa.Function, args []Val, bin
 	return Val{Tuple: results}
 }
 
+// pureStdFunc: package-level functions of package bytes neither write through their arguments nor
+// keep them (HasPrefix, HasSuffix, Equal, Index..., Trim... return sub-slices or fresh copies); the
+// methods of bytes.Buffer / bytes.Reader do write into their arguments and are not covered.
+func pureStdFunc(c *ssa.CallCommon) bool {
+	if c.IsInvoke() {
+		return false
+	}
+	f := c.StaticCallee()
+	if f == nil || f.Signature.Recv() != nil || f.Pkg == nil {
+		return false
+	}
+	return f.Pkg.Pkg.Path() == "bytes"
+}
+
+func cfgHasCycle(fn *ssa.Function) bool {
+	state := map[*ssa.BasicBlock]int{}
+	var visit func(b *ssa.BasicBlock) bool
+	visit = func(b *ssa.BasicBlock) bool {
+		state[b] = 1
+		for _, s := range b.Succs {
+			if state[s] == 1 || (state[s] == 0 && visit(s)) {
+				return true
+			}
+		}
+		state[b] = 2
+		return false
+	}
+	return len(fn.Blocks) > 0 && visit(fn.Blocks[0])
+}
+
+// touchesHeap: can an uncontracted call with these arguments reach the modelled heap at all
+func touchesHeap(c *ssa.CallCommon) bool {
+	touch := c.IsInvoke()
+	for _, a := range c.Args {
+		switch a.Type().Underlying().(type) {
+		case *types.Pointer, *types.Slice, *types.Map, *types.Interface, *types.Signature, *types.Chan:
+			touch = true
+		}
+	}
+	if _, isFn := c.Value.(*ssa.Function); !isFn && !c.IsInvoke() {
+		touch = true
+	}
+	return touch
+}
+
+// autoInline: a helper of the repository that has no contract and is called from a function whose
+// frame is precise (no `modifies heap`) used to make the caller unverifiable ("calls X, which has
+// no contract and may modify the heap"): extracting a helper from a function under contract is a
+// harmless edit and must not raise an alarm by itself. Such a helper is now executed in place -
+// its stores are checked against the CALLER's frame and its result is what its body computes -
+// provided it is loop-free (a loop needs an invariant), not recursive and the nesting stays small.
+// Calls that were accepted before (callee cannot touch the heap, or the caller declares
+// `modifies heap`) are translated as before.
+func (g *Gen) autoInline(fr *Frame, callee *ssa.Function, c *ssa.CallCommon) bool {
+	if callee == nil || len(callee.Blocks) == 0 || callee.Parent() != nil || c == nil {
+		return false
+	}
+	if g.con == nil || g.con.IsLemma || g.specMode || hasHeapModifies(g.con) {
+		return false
+	}
+	if g.P.contracts[funcKey(callee)] != nil || g.P.isSpec(callee) {
+		return false
+	}
+	if pkgOf(callee) == nil || !strings.HasPrefix(pkgOf(callee).Path(), modulePath) || purePkgs[calleePkgPath(c)] || !touchesHeap(c) {
+		return false
+	}
+	// loop-free: the CFG has no cycle
+	if cfgHasCycle(callee) {
+		return false
+	}
+	depth := 0
+	for f := fr; f != nil; f = f.parent {
+		if f.fn == callee {
+			return false
+		}
+		if f.inlined {
+			depth++
+		}
+	}
+	if depth >= 4 {
+		return false
+	}
+	g.note("helper without a contract executed in place (checked against the caller's frame): " + funcKey(callee))
+	return true
+}
+
 func (g *Gen) uncontracted(fr *Frame, st *State, c *ssa.CallCommon, args []Val, resT types.Type, what string) Val {
-	pure := purePkgs[calleePkgPath(c)]
+	pure := purePkgs[calleePkgPath(c)] || pureStdFunc(c)
 	if !pure {
 		// no pointer-like argument => cannot touch the modelled heap (package-level state is not modelled)
 		touch := c.IsInvoke()
@@ -987,7 +1076,7 @@ func (g *Gen) effCall(fr *Frame, c *ssa.CallCommon, eff *Effects, depth int) {
 		}
 		return
 	}
-	if callee != nil && (callee.Parent() != nil || (con != nil && con.Inline) || g.P.autoInline(callee)) {
+	if callee != nil && (callee.Parent() != nil || (con != nil && con.Inline) || (depth < 4 && g.autoInline(fr, callee, c))) {
 		nf := &Frame{fn: callee, free: map[*ssa.FreeVar]Val{}, vals: map[ssa.Value]Val{}}
 		// bind free vars if closure known
 		if cl := g.staticClosureVal(fr, c.Value); cl != nil {
